@@ -195,7 +195,8 @@ reg("C20",
                             P.gen_size_matrix(G.Rng(seed + 25)) +
                             P.gen_abandon_programs(G.Rng(seed + 26), N(tier, 20, 200)) +
                             P.gen_bucket_programs(G.Rng(seed + 27), N(tier, 30, 300)) + P.gen_bucket_shape_programs() +
-                            P.gen_metadata_programs(G.Rng(seed + 28), N(tier, 30, 300))),
+                            P.gen_metadata_programs(G.Rng(seed + 28), N(tier, 30, 300)) +
+                            P.gen_cancel_programs(G.Rng(seed + 29)) + P.gen_link_cycle_programs()),
     monitors=[],
     extra=lambda seed, tier, flavours: LG.leg_mmap_failure(
         P.gen_msync_programs(), flavours, [P.mon_survives, lambda rr: mon_content_valid(rr)], fail_env="FAIL_MSYNC"),
